@@ -785,6 +785,120 @@ fn run_message(ctx: &mut Ctx) {
     }
 }
 
+/// an encrypted message inside an encrypted message (RFC 9580 10.3 allows it; also compressed in
+/// between): changes to the OUTER container that only show behind its last plaintext octet — octets
+/// added behind the final tag, the last chunk written twice, a whole chunk appended — while the inner
+/// container is a whole number of outer chunks (so the inner layer never reads past them) (oracle only)
+fn run_nested(ctx: &mut Ctx) {
+    let mut rng = ChaCha8Rng::seed_from_u64(ctx.seed ^ 0xC03E);
+    let inner_key = gen::random_bytes(&mut rng, 16);
+    let outer_key = gen::random_bytes(&mut rng, 16);
+    let site = "Message::decrypt_with_session_key twice (encrypted message inside an encrypted message)";
+    for outer_v2 in [true, false] {
+        for inner_v2 in [true, false] {
+            // find a payload length for which the inner message is a whole number of 64-octet chunks
+            let mut found: Option<(Vec<u8>, Vec<u8>)> = None;
+            for n in 100usize..260 {
+                let pt = gen::random_bytes(&mut rng, n);
+                let built = guarded(|| {
+                    if inner_v2 {
+                        let mut b = MessageBuilder::from_bytes("", pt.clone()).seipd_v2(&mut rng, SymmetricKeyAlgorithm::AES128, AeadAlgorithm::Ocb, ChunkSize::C64B);
+                        b.set_session_key(inner_key.clone().into()).ok()?;
+                        b.to_vec(&mut rng).ok()
+                    } else {
+                        let mut b = MessageBuilder::from_bytes("", pt.clone()).seipd_v1(&mut rng, SymmetricKeyAlgorithm::AES128);
+                        b.set_session_key(inner_key.clone().into()).ok()?;
+                        b.to_vec(&mut rng).ok()
+                    }
+                });
+                if let Ok(Some(m)) = built {
+                    if m.len() % 64 == 0 || (n == 259) {
+                        found = Some((pt, m));
+                        break;
+                    }
+                }
+            }
+            let Some((pt, inner)) = found else { continue };
+            // the outer container around the inner message, by the packet-level API
+            let outer_body: Option<Vec<u8>> = if outer_v2 {
+                guarded(|| SymEncryptedProtectedData::encrypt_seipdv2(&mut rng, SymmetricKeyAlgorithm::AES128, AeadAlgorithm::Ocb, ChunkSize::C64B, &outer_key, &inner)).ok().and_then(|r| r.ok()).map(|pkt| {
+                    let mut b = vec![2u8, 7, 2, 0];
+                    if let SymEncryptedProtectedDataConfig::V2 { salt, .. } = pkt.config() {
+                        b.extend_from_slice(salt);
+                    }
+                    b.extend_from_slice(pkt.data());
+                    b
+                })
+            } else {
+                guarded(|| SymEncryptedProtectedData::encrypt_seipdv1(&mut rng, SymmetricKeyAlgorithm::AES128, &outer_key, &inner)).ok().and_then(|r| r.ok()).map(|pkt| {
+                    let mut b = vec![1u8];
+                    b.extend_from_slice(pkt.data());
+                    b
+                })
+            };
+            let Some(outer_body) = outer_body else { continue };
+            let frame = |body: &[u8]| crate::frame::frame_fixed(true, 18, if body.len() < 192 { 1 } else if body.len() < 8384 { 2 } else { 5 }, body).unwrap_or_default();
+            let sk_outer = || if outer_v2 { PlainSessionKey::V6 { key: outer_key.clone().into() } } else { PlainSessionKey::V3_4 { sym_alg: SymmetricKeyAlgorithm::AES128, key: outer_key.clone().into() } };
+            let sk_inner = || if inner_v2 { PlainSessionKey::V6 { key: inner_key.clone().into() } } else { PlainSessionKey::V3_4 { sym_alg: SymmetricKeyAlgorithm::AES128, key: inner_key.clone().into() } };
+            let read = |msg: &[u8], streaming: bool| -> (Vec<u8>, bool) {
+                let r = guarded(|| {
+                    use pgp::composed::{DecryptionOptions, TheRing};
+                    let Ok(m) = Message::from_bytes(msg) else { return (vec![], false) };
+                    let mode = if streaming { Seipdv1ReadMode::Streaming } else { Seipdv1ReadMode::CheckFirst { max_message_size: 1 << 24 } };
+                    let ring = |sk: PlainSessionKey| TheRing { secret_keys: vec![], key_passwords: vec![], message_password: vec![], session_keys: vec![sk], decrypt_options: DecryptionOptions::new().set_seipdv1_read_mode(mode) };
+                    let Ok((m1, _)) = m.decrypt_the_ring(ring(sk_outer()), true) else { return (vec![], false) };
+                    let Ok((m2, _)) = m1.decrypt_the_ring(ring(sk_inner()), true) else { return (vec![], false) };
+                    consume(m2, Pattern::ReadToEnd)
+                });
+                r.unwrap_or((b"PANIC".to_vec(), true))
+            };
+            let shape = format!("outer={} inner={} inner_len={} (mod 64 = {})", if outer_v2 { "v2" } else { "v1" }, if inner_v2 { "v2" } else { "v1" }, inner.len(), inner.len() % 64);
+            for streaming in [false, true] {
+                let honest = frame(&outer_body);
+                let r = read(&honest, streaming);
+                ctx.oracle("unmodified_decrypts", site, &format!("{shape} streaming={streaming} msg={}", hx(&honest)), r.1 && r.0 == pt, &show(&r));
+                let hdr = if outer_v2 { 36usize } else { 1 };
+                let mut variants: Vec<(String, Vec<u8>)> = Vec::new();
+                for extra in [1usize, 16, 64, 80, 160] {
+                    let mut b = outer_body.clone();
+                    b.extend(gen::random_bytes(&mut rng, extra));
+                    variants.push((format!("append{extra}_behind_the_end"), b));
+                }
+                if outer_v2 && outer_body.len() >= hdr + 80 + 16 {
+                    // the last full chunk written twice; a copy of the first chunk behind the last one
+                    let n = outer_body.len();
+                    let last = outer_body[n - 16 - 80..n - 16].to_vec();
+                    let mut b = outer_body[..n - 16].to_vec();
+                    b.extend_from_slice(&last);
+                    b.extend_from_slice(&outer_body[n - 16..]);
+                    variants.push(("last_chunk_twice".into(), b));
+                    let mut b = outer_body[..n - 16].to_vec();
+                    b.extend_from_slice(&outer_body[hdr..hdr + 80]);
+                    b.extend_from_slice(&outer_body[n - 16..]);
+                    variants.push(("first_chunk_again_at_the_end".into(), b));
+                    let mut b = outer_body.clone();
+                    b[n - 1] ^= 1;
+                    variants.push(("flip_final_tag".into(), b));
+                    variants.push(("drop_final_tag".into(), outer_body[..n - 16].to_vec()));
+                }
+                if !outer_v2 {
+                    let n = outer_body.len();
+                    let mut b = outer_body.clone();
+                    b[n - 1] ^= 1;
+                    variants.push(("flip_mdc".into(), b));
+                    variants.push(("cut_mdc".into(), outer_body[..n - 22].to_vec()));
+                }
+                for (what, b) in variants {
+                    let m = frame(&b);
+                    let r = read(&m, streaming);
+                    ctx.oracle("modified_never_clean_eof", site, &format!("{shape} streaming={streaming} what={what} msg={}", hx(&m)), !r.1, &show(&r));
+                    ctx.stat("nested");
+                }
+            }
+        }
+    }
+}
+
 /// every cipher a container can name (the decryptors dispatch per cipher; the RFC reference used for
 /// the correspondence exists for AES / CAST5 only): honest round trip, then a fixed set of changes to
 /// the ciphertext, under both SEIPDv1 read modes and the three AEAD modes (oracle only)
@@ -914,6 +1028,7 @@ fn run_cipher_sweep(ctx: &mut Ctx) {
 }
 
 pub fn run(ctx: &mut Ctx) {
+    run_nested(ctx);
     run_cipher_sweep(ctx);
     // thorough: the whole sweep is repeated with fresh keys, salts, plaintexts and mutation choices
     let rounds = ctx.pick(1u64, 24u64);
